@@ -300,12 +300,13 @@ func (su *Summarize) optSeq(mode Mode, req Require) (Cost, Cost, any) {
 		req.cols = set.Difference(req.cols, su.cols)
 		dbg.Assert(len(req.cols) > 0)
 	}
+	if !set.Disjoint(req.cols, su.cols) {
+		// a computed column can have the same name as a source column,
+		// the source must not take the requirement as being on its column
+		// or as satisfied because its column is fixed
+		return impossible, impossible, nil
+	}
 	if su.unique {
-		if !set.Disjoint(req.cols, su.cols) {
-			// a computed column can have the same name as a source column,
-			// the source must not take the requirement as being on its column
-			return impossible, impossible, nil
-		}
 		// by is a key of the source: pass req through unchanged (like
 		// Project's projCopy). When req.use == ReqUnique, req.cols (already
 		// stripped of su.cols above) is a valid Summarize key and therefore
